@@ -1,5 +1,5 @@
 reg("C17", "seq", "p-codes", "exploration",
     "exhaustive enumeration of the complete input space (all 2^16 / 2^8 code values, all case patterns) against independent IANA tables",
-    "Complete enumeration: every 16-bit TYPE/CLASS/QTYPE/QCLASS value and every 8-bit opcode/RCODE value is rendered, parsed back and compared with an independent mnemonic table; the RFC 3597 generic forms are parsed for every value in three prefix case patterns and with the number zero-padded to 5, 6, 10 and 20 digits; exhaustive, so within the stated API the property is decided, not sampled.",
+    "Complete enumeration: every 16-bit TYPE/CLASS/QTYPE/QCLASS value and every 8-bit opcode/RCODE value is rendered, parsed back and compared with an independent mnemonic table; the RFC 3597 generic forms are parsed for every value in three prefix case patterns and with the number zero-padded to 5, 6, 10 and 20 digits; exhaustive, so within the stated API the property is decided, not sampled. Every value is also rendered under width / fill / alignment formatter options and through a forwarding wrapper; trimmed of the fill character the text must be the plain rendering.",
     "Trusts the harness's IANA mnemonic tables and Rust's integer formatting.",
     "DESIGN.md §7 C17")
